@@ -7,10 +7,14 @@ PROPS="${@:-C01 C02 C03 C04 C05 C06 C07 C08 C09 C10 C11 C12 C13 C14 C15 C20}"
 OUT=/var/tmp/determinism; mkdir -p $OUT; cp /verif/known_findings.json $OUT/
 bad=0
 for p in $PROPS; do
+  rm -f $OUT/$p.16.fps $OUT/$p.5.fps
   for w in 16 5; do
     VERIF_OUT=$OUT VERIF_SEED=$SEED VERIF_WORKERS=$w VERIF_DUMP_FPS=$OUT/$p.$w.fps /verif/run.sh $p quick >/dev/null 2>&1
   done
-  n=$(wc -l < $OUT/$p.16.fps)
-  if cmp -s $OUT/$p.16.fps $OUT/$p.5.fps; then echo "$p seed=$SEED runs=$n identical"; else echo "$p seed=$SEED MISMATCH: $(diff $OUT/$p.16.fps $OUT/$p.5.fps | head -3)"; bad=1; fi
+  if [ ! -s $OUT/$p.16.fps ] || [ ! -s $OUT/$p.5.fps ]; then echo "$p seed=$SEED: a run did not complete (no fingerprint file)"; bad=1; continue; fi
+  # compare the runs present in both (a tier cut short by its wall-clock budget executes fewer runs with 5 workers)
+  res=$(join <(sort -k1,1 $OUT/$p.16.fps) <(sort -k1,1 $OUT/$p.5.fps) | awk '{n++; if ($2 != $3) {bad++; if (bad <= 3) printf "run %s: %s vs %s; ", $1, $2, $3}} END {printf "common=%d mismatches=%d", n, bad+0}')
+  echo "$p seed=$SEED runs16=$(wc -l < $OUT/$p.16.fps) runs5=$(wc -l < $OUT/$p.5.fps) $res"
+  case "$res" in *"mismatches=0") ;; *) bad=1;; esac
 done
 exit $bad
